@@ -116,3 +116,15 @@ Example C08_identity_example :
   let e := ENot true (ECmp true (EName 1) [(Is, EList [ci 1])]) in
   identity_guard rho e = true /\ rw_identity e <> e /\ meaning rho e = Val (VBool true).
 Proof. vm_compute. repeat split; try reflexivity. discriminate. Qed.
+
+(** str-concat-in-sequence-literals is NOT among the refactorings C08 speaks about (properties.jsonl: generator expressions, set
+    literals, walrus-if, combined calls, f-strings, imports, abc / logging deprecations, lazy logging, inverted boolean checks,
+    hasattr-call, `with` wrapping; SQL parameterization): it changes what the display means on purpose (["x" "x", "y"] is
+    ["xx", "y"], its rewrite ["x", "x", "y"]).  The fact is recorded; no C08 law is claimed, no finding is listed, and the
+    harness compares only the model with the real codemod for this kernel (C01 / C02 / C07 carry its theorems). *)
+From CM Require Import Proofs.StrConcatFacts.
+Theorem C08_str_concat_changes_meaning : forall cfg,
+  wf w_sc_meaning = true /\ meaning [] (rw_str_concat cfg w_sc_meaning) <> meaning [] w_sc_meaning /\
+  meaning [] w_sc_meaning = Val (VList [VStr (lit "xx"); VStr (lit "y")]).
+Proof. exact str_concat_changes_meaning. Qed.
+Print Assumptions C08_str_concat_changes_meaning.
